@@ -513,5 +513,38 @@ PROPS["C09"] = {"gen": c09,
     "assumptions": ["states satisfy RI_dir / RI_und"]}
 
 
+def c10(tier):
+    import itertools
+    obs = []
+    for und in (0, 1):
+        for q in (0, 1):
+            for n in ((0, 1, 2, 3) if tier == "quick" else (0, 1, 2, 3, 4)):
+                seqs = [None] if n < 2 else [p for k in range(n + 1) for p in itertools.permutations(range(n), k)]
+                if n == 4:
+                    seqs = [p for p in seqs if len(p) <= 2]            # 4 vertices: subsets of at most two vertices
+                if n == 3 and tier == "quick":
+                    seqs = [p for p in seqs if len(p) <= 2]            # quick: the full set of 3 vertices is left to the thorough tier
+                for sq in seqs:
+                    defs = caps(n, n)
+                    defs.update({"UND": und, "Q": q})
+                    kw = {"optional_reach": [""]}
+                    if sq is not None:
+                        defs["SEQLEN"] = len(sq)
+                        for c in range(4):
+                            defs["SEQ%d" % c] = sq[c] if c < len(sq) else 0
+                    if n >= 4 or (sq is not None and len(sq) >= 3):
+                        kw.update(timeout=3000, mem_gb=12)
+                    obs.append(dict({"id": "C10/%s/%s/n%d%s" % ("und" if und else "dir", "getSubgraphWithRemap" if q else "getSubgraph", n, "" if sq is None else "-S" + "".join(map(str, sq)) if sq else "-Sempty"),
+                                     "src": "subgraph.cpp", "defs": defs, "bounds": graph_bounds(defs)}, **kw))
+    return obs
+
+
+PROPS["C10"] = {"gen": c10,
+    "bounds": {"quick": "LabeledDirectedGraph<int> and LabeledUndirectedGraph<int> on 0..3 vertices (labels from 4 values), every subset S (all 2^n, incl. empty and full) in every insertion / iteration order", "thorough": "0..4 vertices"},
+    "outside": "graphs above the vertex bound; other label types (the functions treat labels only by copy)",
+    "explanation": "Arbitrary valid labelled graph, arbitrary subset in arbitrary iteration order; the result is compared at an arbitrary pair with the induced subgraph; the returned map is checked for key set, range and injectivity.",
+    "assumptions": ["states satisfy RI_dir / RI_und"]}
+
+
 def obligations(prop, tier):
     return PROPS[prop]["gen"](tier)
